@@ -99,7 +99,7 @@ def random_scene(rng, nlayer=None, lossless=False, isothermal=None, substrate="r
             s["params"] = dict(Q=round(float(rng.uniform(0, 0.5)), 3), N=Nq, H=round(float(rng.uniform(0, 1)), 3), Nv=Nq, Nh=Nq)
         elif substrate == "rough_choudhury79":
             # the class refuses k*sigma > 0.1 (k in the layer above, index < 1.8)
-            s["params"] = dict(roughness_rms=float(rng.uniform(0.05, 0.95)) * 0.1 / (2 * np.pi * frequency / 2.9979e8 * 1.8))
+            s["params"] = dict(roughness_rms=float(np.exp(rng.uniform(np.log(0.02), np.log(0.95)))) * 0.1 / (2 * np.pi * frequency / 2.9979e8 * 1.8))
         elif substrate == "reflector":
             q = rng.random()     # 0 (black body) and 1 (mirror) are legitimate, documented values
             s["params"] = dict(specular_reflection=0.0 if q < 0.2 else 1.0 if q < 0.3 else round(float(rng.uniform(0, 1)), 3))
